@@ -63,10 +63,30 @@ func serializeOnce(d *sbom.Document, f formats.Format) serOutcome {
 	return so
 }
 
+// failAfter accepts n bytes and then fails every write.
+type failAfter struct{ n int }
+
+func (w *failAfter) Write(p []byte) (int, error) {
+	if len(p) <= w.n {
+		w.n -= len(p)
+		return len(p), nil
+	}
+	k := w.n
+	w.n = 0
+	return k, fmt.Errorf("no space left on device")
+}
+func (w *failAfter) Close() error { return nil }
+
+func writeToFailingStream(d *sbom.Document, f formats.Format, n int) {
+	callWithTimeout(10*time.Second, func() {
+		_ = writer.New(writer.WithFormat(f)).WriteStream(d, &failAfter{n: n})
+	})
+}
+
 func runC07(seed int64, n int, dir string, tier string) *Report {
 	g := gen.New(seed)
 	rep := NewReport("C07", seed)
-	rep.Rule = "n arbitrary Document values (absent metadata or node list, nil list elements, unknown enum numbers, empty/duplicate identifiers, dangling edges, cycles, no or many roots, document types with absent parts) x 7 registered formats; each serialized, serialized again, and serialized once more after serializing other documents; outputs compared as canonical JSON (timestamps blanked, arrays sorted); plus documents with containment and dependency cycles of eight shapes serialized in a child process (runaway recursion ends a process); non-trivial = document with at least 2 nodes; distinct by hash"
+	rep.Rule = "n arbitrary Document values (absent metadata or node list, nil list elements, unknown enum numbers, empty/duplicate identifiers, dangling edges, cycles, no or many roots, document types with absent parts) x 7 registered formats; each serialized, serialized again, and serialized once more after serializing other documents and after writes to streams that fail half way; outputs compared as canonical JSON (timestamps blanked, arrays sorted); plus documents with containment and dependency cycles of eight shapes serialized in a child process (runaway recursion ends a process); non-trivial = document with at least 2 nodes; distinct by hash"
 	cf, xs, xc := newXlateCases()
 	coqfmt.DropNil = true
 	defer func() { coqfmt.DropNil = false }()
@@ -131,7 +151,10 @@ func runC07(seed int64, n int, dir string, tier string) *Report {
 			b := serializeOnce(d, f)
 			for _, p := range prev {
 				serializeOnce(p, gen.Pick(g, allWriterFormats))
+				// a write that fails half way (full disk, closed pipe) is part of "whatever was serialized before"
+				writeToFailingStream(p, gen.Pick(g, allWriterFormats), 1+g.Int(400))
 			}
+			writeToFailingStream(d, f, 1+g.Int(200))
 			c := serializeOnce(d, f)
 			if b.kind != a.kind || c.kind != a.kind || b.out != a.out || c.out != a.out {
 				rep.Fail(Failure{What: "serializing the same document again gave a different result", Detail: fmt.Sprintf("%s / %s / %s", a.kind, b.kind, c.kind), Input: in})
